@@ -84,7 +84,57 @@ var skels = []skel{
 		return Query("T", &Op{K: "sort", Terms: []SortTerm{{X: Call("iff", Bin("=~", Name("a"), h), Num("1"), Num("2"))}}})
 	}},
 	{"extend-unnamed", "str", func(h *E, _ Ident) *Program { return Query("T", &Op{K: "extend", Cols: []Col{{X: h}}}) }},
+	{"in-list-wide", "str", func(h *E, _ Ident) *Program {
+		e := In(Name("a"))
+		for i := 0; i < 20; i++ {
+			if i == 13 {
+				e.Kids = append(e.Kids, h)
+			} else {
+				e.Kids = append(e.Kids, Str(fmt.Sprintf("'v%d'", i), fmt.Sprintf("v%d", i)))
+			}
+		}
+		return Query("T", &Op{K: "where", X: e})
+	}},
+	{"strcat-wide", "str", func(h *E, _ Ident) *Program {
+		e := Call("strcat")
+		for i := 0; i < 12; i++ {
+			if i == 9 {
+				e.Kids = append(e.Kids, h)
+			} else {
+				e.Kids = append(e.Kids, Name(fmt.Sprintf("c%d", i)))
+			}
+		}
+		return Query("T", &Op{K: "extend", Cols: []Col{{Name: idp("s"), X: e}}})
+	}},
+	{"project-wide", "str", func(h *E, _ Ident) *Program {
+		op := &Op{K: "project"}
+		for i := 0; i < 18; i++ {
+			x := Name(fmt.Sprintf("c%d", i))
+			if i == 16 {
+				x = h
+			}
+			op.Cols = append(op.Cols, Col{Name: idp(fmt.Sprintf("p%d", i)), X: x})
+		}
+		return Query("T", op)
+	}},
 	// identifier holes
+	{"join-right-as", "id", func(_ *E, id Ident) *Program {
+		return Query("T", &Op{K: "join", Right: &Pipe{Table: Ident{Name: "U"}, Ops: []*Op{{K: "where", X: Name("q")}, {K: "as", Name: id}}}, Conds: []*E{Name("k")}})
+	}},
+	{"as-then-join", "id", func(_ *E, id Ident) *Program {
+		return Query("T", &Op{K: "as", Name: id}, &Op{K: "join", Kind: "inner", Right: &Pipe{Table: Ident{Name: "U"}}, Conds: []*E{Name("k")}}, &Op{K: "count"})
+	}},
+	{"project-wide-alias", "id", func(_ *E, id Ident) *Program {
+		op := &Op{K: "project"}
+		for i := 0; i < 18; i++ {
+			n := idp(fmt.Sprintf("p%d", i))
+			if i == 17 {
+				n = &id
+			}
+			op.Cols = append(op.Cols, Col{Name: n, X: Name(fmt.Sprintf("c%d", i))})
+		}
+		return Query("T", op)
+	}},
 	{"table", "id", func(_ *E, id Ident) *Program {
 		return &Program{Stmts: []*Stmt{{Pipe: &Pipe{Table: id, Ops: []*Op{{K: "count"}}}}}}
 	}},
